@@ -20,5 +20,6 @@ Laws ==
 \* (evaluated once, in the state <<any, null>>)
 NonVacuous == (s.k = "any" /\ v.t = "null") => \A x \in Schemas : (\E i \in Instances : Valid(x, i)) /\ (x.k # "any" => \E i \in Instances : ~Valid(x, i))
 \* each named deviation changes the verdict of some pair of the domain (it is observable)
-DevObservable == (s.k = "any" /\ v.t = "null") => \A d \in Deviations : \E x \in Schemas, i \in Instances : ImplValid(x, i, {d}) # Valid(x, i)
+DevObservable == (s.k = "any" /\ v.t = "null") => /\ \A d \in Deviations \ {"Dev_SumUniqueCachedOnSharedVariant"} : \E x \in Schemas, i \in Instances : ImplValid(x, i, {d}) # Valid(x, i)
+     /\ \E x \in SharedSums, i \in Instances : (~Valid(x, i)) \in StaleOutcomes(x, i, {"Dev_SumVariantByMemberPresence"})
 =============================================================================
